@@ -132,10 +132,18 @@ Definition ev_measure (q : nat) (inplace : bool) (e : est) : option (Z * est) :=
   end.
 
 Definition loop_count (start stop step : Z) : option nat :=
-  if step <=? 0 then None
-  else if stop <? start then None
-  else if negb ((stop - start) mod step =? 0) then None
-  else Some (Z.to_nat ((stop - start) / step)).
+  (* i = start, start+step, ... until i = stop.  A step that never lands on `stop`
+     (zero, wrong direction, or not dividing the distance) has no meaning: the SDK
+     documents "looping stops when the index reaches stop" and nothing else *)
+  if step =? 0 then None
+  else if 0 <? step then
+    (if stop <? start then None
+     else if negb ((stop - start) mod step =? 0) then None
+     else Some (Z.to_nat ((stop - start) / step)))
+  else
+    (if start <? stop then None
+     else if negb ((start - stop) mod (- step) =? 0) then None
+     else Some (Z.to_nat ((start - stop) / (- step)))).
 
 (* i = start, start+step, ...: n rounds *)
 Fixpoint iter_loop (f : Z -> est -> option est) (n : nat) (i step : Z) (e : est) : option est :=
@@ -191,9 +199,9 @@ Fixpoint eval_stmt (s : stmt) (e : est) {struct s} : option est :=
       | None => None
       end
   | SMeasNew q ip a =>
-      match ev_measure q ip e with
-      | Some (o, e1) => ev_store a (IxC 0) o e1
-      | None => None
+      match alookup a (e_arr e), ev_measure q ip e with
+      | Some [_], Some (o, e1) => ev_store a (IxC 0) o e1
+      | _, _ => None
       end
   | SMeasReg q ip r =>
       match ev_measure q ip e with
@@ -203,14 +211,12 @@ Fixpoint eval_stmt (s : stmt) (e : est) {struct s} : option est :=
   | SFree q =>
       match alookup q (e_q e) with Some _ => Some (with_q e (aremove q (e_q e))) | None => None end
   | SNewArray a n init =>
+      (* the array exists since the start of the flush block (hoist_top); a host program cannot
+         mention an Array before creating it, so the moment of creation is not observable *)
       match alookup a (e_arr e) with
-      | Some _ => None
-      | None =>
-          match init with
-          | None => if Nat.eqb n 0 then None else Some (with_arr e (aset a (repeat None n) (e_arr e)))
-          | Some l => if Nat.eqb (List.length l) n && negb (Nat.eqb n 0)
-                      then Some (with_arr e (aset a l (e_arr e))) else None
-          end
+      | Some l => if Nat.eqb (List.length l) (match init with Some l0 => List.length l0 | None => n end)
+                  then Some e else None
+      | None => None
       end
   | SFutAdd a ix o m =>
       match ev_entry a ix e, ev_src o e with
@@ -223,12 +229,19 @@ Fixpoint eval_stmt (s : stmt) (e : est) {struct s} : option est :=
           match ev_sum v w m with Some z => Some (with_reg e (aset r z (e_reg e))) | None => None end
       | _, _ => None
       end
+  | SNewReg r init => Some (with_reg e (aset r init (e_reg e)))
+  | SUAdd r o m =>
+      match alookup r (e_reg e), ev_src o e with
+      | Some v, Some w =>
+          match ev_sum v w m with Some z => Some (with_reg e (aset r z (e_reg e))) | None => None end
+      | _, _ => None
+      end
   | SIf c cb x y body =>
       match ev_cval x e, (match c with CEz | CNz => Some 0 | _ => ev_cval y e end) with
       | Some a, Some b => if cond_true c a b then eval_block body e else Some e
       | _, _ => None
       end
-  | SLoop cb v start stop step body =>
+  | SLoop cb v _ start stop step body =>
       match loop_count start stop step with
       | Some n =>
           match iter_loop (fun i e' => eval_block body (bind_lv v i (drop_lv v e'))) n start step e with
@@ -262,12 +275,22 @@ with eval_block (b : block) (e : est) {struct b} : option est :=
   | BCons s r => match eval_stmt s e with Some e' => eval_block r e' | None => None end
   end.
 
-(* arrays created by `q.measure()` exist (undefined) from the start of the flush
-   block in which the statement occurs, whether or not it is reached *)
+(* arrays are static objects of a flush block: those created by `q.measure()` exist (undefined)
+   and those of conn.new_array exist with their initial values from the start of the block in
+   which the statement occurs, whether or not it is reached *)
 Fixpoint hoist_stmt (s : stmt) (ar : arrays) : arrays :=
   match s with
   | SMeasNew _ _ a => match alookup a ar with Some _ => ar | None => aset a [None] ar end
-  | SIf _ _ _ _ b | SLoop _ _ _ _ _ b | SForeach _ _ _ b | SEpr _ b => hoist_block b ar
+  | SNewArray a n init =>
+      match alookup a ar with
+      | Some _ => ar
+      | None =>
+          match init with
+          | Some l => if Nat.eqb (List.length l) 0 then ar else aset a l ar
+          | None => if Nat.eqb n 0 then ar else aset a (repeat None n) ar
+          end
+      end
+  | SIf _ _ _ _ b | SLoop _ _ _ _ _ _ b | SForeach _ _ _ b | SEpr _ b => hoist_block b ar
   | SLoopUntil _ _ b _ _ cl => hoist_block cl (hoist_block b ar)
   | _ => ar
   end
